@@ -11,6 +11,7 @@ container contents) is taken before and after; the dump is repeated.
 """
 import collections
 import datetime
+import re
 import enum
 import pathlib
 
@@ -155,15 +156,30 @@ def check_dump(ctx, m, spec, v, dumps, case, label='C06'):
     if ndocs != 1:
         ctx.violation('%s not-exactly-one-document' % label,
                       '%d documents in %r' % (ndocs, text[:200]), case)
+    tag_keys = set()
+    odd_offset = False
     for e in events:
         ctx.count('events_checked')
         if getattr(e, 'tag', None) is not None:
-            ctx.violation('%s explicit-tag-in-output' % label,
-                          'explicit tag %r in dump %r' % (e.tag, text[:300]),
-                          case)
-            break
+            key = '%s explicit-tag-in-output' % label
+            if e.tag == 'tag:yaml.org,2002:timestamp' and isinstance(
+                    e, yaml.ScalarEvent) and ODD_UTC_OFFSET.search(e.value):
+                # a datetime whose UTC offset is no whole number of minutes
+                # has no YAML timestamp spelling: PyYAML writes isoformat()
+                # under an explicit tag (and cannot read that back)
+                key += ' timestamp-with-utc-offset-not-in-whole-minutes'
+                odd_offset = True
+            if key not in tag_keys:
+                tag_keys.add(key)
+                ctx.violation(key, 'explicit tag %r on %r in dump %r' % (
+                    e.tag, getattr(e, 'value', None), text[:300]), case)
         if isinstance(e, yaml.AliasEvent):
             ctx.count('alias_in_output')
+    if odd_offset:
+        # the plain readers raise on that scalar (PyYAML's timestamp
+        # constructor): the same finding, not a second one
+        ctx.count('readers_not_judged_(timestamp_with_odd_utc_offset)')
+        return text
     # plain readers
     for name, ldr in (('yaml11', yaml.SafeLoader), ('yaml12', RefLoader12)):
         try:
@@ -182,6 +198,9 @@ def check_dump(ctx, m, spec, v, dumps, case, label='C06'):
                     name, text[:300], short(plain.digest(got)),
                     short(plain.digest(want))), case)
     return text
+
+
+ODD_UTC_OFFSET = re.compile(r'[-+]\d\d:\d\d:\d\d(\.\d+)?$')
 
 
 def diff_kind(a, b, depth=0):
